@@ -33,6 +33,57 @@ type Torrent struct {
 	Bytes      []byte // .torrent file
 	fileStart  []int64
 	SingleFile bool
+	// Unsat marks pieces whose recorded hash was altered (BreakHash): no content can match it, so any
+	// byte stored for such a piece is unverified content.
+	Unsat map[int]bool
+}
+
+// BreakHash flips one byte (position pos of 20) of the recorded SHA-1 of piece k and rebuilds the metainfo.
+// The ground-truth content keeps its real hash, so an honest seeder's data must be refused for that piece.
+func BreakHash(l Layout, seed int64, trackers [][]string, webseeds []string, k, pos int) *Torrent {
+	t := Build(l, seed, trackers, webseeds)
+	if k < 0 || k >= t.NumPieces {
+		return t
+	}
+	t.Hashes[k] = append([]byte(nil), t.Hashes[k]...)
+	t.Hashes[k][pos%20] ^= 0xff
+	var pieces []byte
+	for _, h := range t.Hashes {
+		pieces = append(pieces, h...)
+	}
+	info := Dict{"name": l.Name, "piece length": l.PieceLen, "pieces": pieces}
+	if l.Private != nil {
+		info["private"] = l.Private
+	}
+	if t.SingleFile {
+		info["length"] = l.Files[0].Length
+	} else {
+		var fl []any
+		for _, f := range l.Files {
+			d := Dict{"length": f.Length, "path": f.Path}
+			if f.Pad {
+				d["attr"] = "p"
+			}
+			fl = append(fl, d)
+		}
+		info["files"] = fl
+	}
+	t.InfoBytes = Enc(info)
+	t.InfoHash = sha1.Sum(t.InfoBytes)
+	top := Dict{"info": Raw(t.InfoBytes)}
+	if len(trackers) == 1 && len(trackers[0]) == 1 {
+		top["announce"] = trackers[0][0]
+	} else if len(trackers) > 0 {
+		top["announce-list"] = trackers
+	}
+	if len(webseeds) == 1 {
+		top["url-list"] = webseeds[0]
+	} else if len(webseeds) > 1 {
+		top["url-list"] = webseeds
+	}
+	t.Bytes = Enc(top)
+	t.Unsat = map[int]bool{k: true}
+	return t
 }
 
 // Build creates content (seeded), hashes and the bencoded metainfo.
